@@ -45,6 +45,7 @@ type vReq struct {
 // vSyncer is the model syncer (DESIGN.md B.1): go-ipld-prime selector
 // semantics over a linear chain. chain[0] is the newest block.
 type vSyncer struct {
+	global    []int // shared [running, max running] across syncers (for C08)
 	chain     []cid.Cid
 	peerID    peer.ID
 	hook      func(peer.ID, cid.Cid) // the subscriber's scoped block hook dispatcher
@@ -89,7 +90,18 @@ func (m *vSyncer) Sync(ctx context.Context, start cid.Cid, sel ipld.Node) error 
 	if m.active > m.maxActive {
 		m.maxActive = m.active
 	}
-	defer func() { m.active-- }()
+	if m.global != nil {
+		m.global[0]++
+		if m.global[0] > m.global[1] {
+			m.global[1] = m.global[0]
+		}
+	}
+	defer func() {
+		m.active--
+		if m.global != nil {
+			m.global[0]--
+		}
+	}()
 	limit, ok := getRecursionLimit(sel)
 	if !ok {
 		return errors.New("model: selector has no recursion limit")
@@ -130,6 +142,9 @@ func (m *vSyncer) Sync(ctx context.Context, start cid.Cid, sel ipld.Node) error 
 	// hooks are replayed in traversal order after the whole walk succeeded
 	if m.hook != nil {
 		for _, c := range visited {
+			if m.yield {
+				verif_Yield()
+			}
 			m.hook(m.peerID, c)
 		}
 	}
@@ -139,6 +154,8 @@ func (m *vSyncer) Sync(ctx context.Context, start cid.Cid, sel ipld.Node) error 
 // vSub builds a Subscriber by hand around the model syncer: no libp2p host,
 // no receiver, no background goroutines.
 type vSub struct {
+	dispatch   func(peer.ID, cid.Cid)
+	others     []*vSyncer
 	s          *Subscriber
 	sy         *vSyncer
 	peer       peer.AddrInfo
@@ -156,6 +173,7 @@ func newVSubEnts(chain []cid.Cid, adsDepthLimit, firstSyncDepth, segDepthLimit, 
 	mu, scoped, dispatch := wrapBlockHook()
 	ssb := builder.NewSelectorSpecBuilder(basicnode.Prototype.Any)
 	pid := peer.ID("publisher-1")
+	v.dispatch = dispatch
 	v.sy = &vSyncer{chain: chain, peerID: pid, hook: dispatch}
 	s := &Subscriber{
 		host:                 vHost{},
@@ -187,12 +205,13 @@ func newVSubEnts(chain []cid.Cid, adsDepthLimit, firstSyncDepth, segDepthLimit, 
 				a.FailSync(errModelFault)
 				return
 			}
-			i := v.sy.pos(c)
-			if i >= 0 && i+1 < len(v.sy.chain) {
-				a.SetNextSyncCid(v.sy.chain[i+1])
-			} else {
-				a.SetNextSyncCid(cid.Undef)
+			next := cid.Undef
+			for _, sy := range append([]*vSyncer{v.sy}, v.others...) {
+				if i := sy.pos(c); i >= 0 && i+1 < len(sy.chain) {
+					next = sy.chain[i+1]
+				}
 			}
+			a.SetNextSyncCid(next)
 		}
 	}
 	v.s = s
@@ -221,4 +240,13 @@ func (v *vSub) latest() cid.Cid {
 		return cid.Undef
 	}
 	return l.(cidlink.Link).Cid
+}
+
+// addPublisher registers a second publisher with its own model syncer.
+func (v *vSub) addPublisher(pid peer.ID, chain []cid.Cid) *vSyncer {
+	sy := &vSyncer{chain: chain, peerID: pid, hook: v.dispatch}
+	v.others = append(v.others, sy)
+	hnd := v.s.getOrCreateHandler(pid)
+	hnd.syncer = sy
+	return sy
 }
